@@ -36,6 +36,13 @@ Proof. intros A t. apply produces_invalid_proof. Qed.
 Theorem produces_at_agrees : forall A (t : tx A) i, produces_at t i = assoc i (produces t).
 Proof. intros A t i. apply produces_at_agrees_proof. Qed.
 
+(* the indexed lookup of the model is the ordinary list lookup *)
+Theorem get_is_nth_error : forall A (l : list A) i,
+  get l i = if i <? 0 then None else nth_error l (Z.to_nat i).
+Proof.
+  intros A l i. unfold get. destruct (i <? 0) eqn:E; [reflexivity|]. apply zget_nth_error. lia.
+Qed.
+
 Theorem sorted_set_sorted_nodup_same_set : forall A (t : tx A),
   StronglySorted key_lt (inputs_sorted_set t) /\ NoDup (inputs_sorted_set t) /\
   (forall x, In x (inputs_sorted_set t) <-> In x (inputs t)).
